@@ -77,6 +77,8 @@ var mgWants = []mgWant{
 	{"internal/workers/continuous_pool.go", "ContinuousPool", "startWorker", "", "cpool_startWorker"},
 	{"internal/workers/continuous_pool.go", "ContinuousPool", "maxIterationsReached", "", "cpool_maxIterationsReached"},
 	{"internal/run/run_cmd.go", "", "runCmdExecute", "return", "cmd_execute"},
+	{"internal/trigger/staged/calculator.go", "RateCalculator", "add", "", "staged_add"},
+	{"internal/trigger/staged/calculator.go", "RateCalculator", "MaxDuration", "", "staged_MaxDuration"},
 	{"internal/metrics/result.go", "", "Result", "", "metrics_Result"},
 	{"internal/run/result.go", "Result", "Summary", "", "result_Summary"},
 	{"internal/run/result.go", "Result", "Progress", "", "result_Progress"},
@@ -146,16 +148,18 @@ func findRecoverers(repo string) {
 }
 
 type mgCtx struct {
-	fset     *token.FileSet
-	atomics  map[string]bool   // struct field names declared with a sync/atomic type in this package
-	rename   map[string]string // receiver / parameters → recv, arg0, …
-	alias    map[string]string // x := a.b.c (never reassigned)  →  x stands for a.b.c
-	opaque   map[string]bool   // locals holding the result of an external call: their fields are projections (`.field`)
-	inLoop   int               // > 0 inside a loop body: niladic methods are read again every time (oracles)
-	loopN    *int              // numbering of the hidden index variables of range loops
-	body     ast.Node          // the function being translated
-	pkgDir   string            // directory of the file, relative to the repository
-	pkgDecls []ast.Decl        // the declarations of the file being translated
+	fset       *token.FileSet
+	atomics    map[string]bool     // struct field names declared with a sync/atomic type in this package
+	rename     map[string]string   // receiver / parameters → recv, arg0, …
+	alias      map[string]string   // x := a.b.c (never reassigned)  →  x stands for a.b.c
+	opaque     map[string]bool     // locals holding the result of an external call: their fields are projections (`.field`)
+	inLoop     int                 // > 0 inside a loop body: niladic methods are read again every time (oracles)
+	loopN      *int                // numbering of the hidden index variables of range loops
+	body       ast.Node            // the function being translated
+	pkgDir     string              // directory of the file, relative to the repository
+	pkgDecls   []ast.Decl          // the declarations of the file being translated
+	structs    map[string][]string // struct types of the package: their field names
+	structVars map[string][]string // parameters of such a type: their fields
 }
 
 // the identifier a selector chain is rooted in (nil if it is not one)
@@ -208,8 +212,19 @@ func isFuncValue(e ast.Expr) bool {
 func fieldsUsed(body ast.Node, name string) []string {
 	seen := map[string]bool{}
 	var out []string
+	methods := map[*ast.SelectorExpr]bool{} // x.m(…): a method call, not a field read
 	ast.Inspect(body, func(n ast.Node) bool {
-		if sel, ok := n.(*ast.SelectorExpr); ok {
+		if call, ok := n.(*ast.CallExpr); ok {
+			if sel, ok := call.Fun.(*ast.SelectorExpr); ok {
+				if id, ok := sel.X.(*ast.Ident); ok && id.Name == name && !funcFields[sel.Sel.Name] && sel.Sel.Name != "Rate" {
+					methods[sel] = true
+				}
+			}
+		}
+		return true
+	})
+	ast.Inspect(body, func(n ast.Node) bool {
+		if sel, ok := n.(*ast.SelectorExpr); ok && !methods[sel] {
 			if id, ok := sel.X.(*ast.Ident); ok && id.Name == name && !seen[sel.Sel.Name] {
 				seen[sel.Sel.Name] = true
 				out = append(out, sel.Sel.Name)
@@ -823,6 +838,14 @@ func (c *mgCtx) stmt(s ast.Stmt) string {
 				if dynCallIn(call.Args[1]) != nil {
 					return c.unsupportedS(s)
 				}
+				if vid, ok := call.Args[1].(*ast.Ident); ok && c.structVars[vid.Name] != nil {
+					// a struct value: appended field by field
+					var fs []string
+					for _, f := range c.structVars[vid.Name] {
+						fs = append(fs, "("+leanStr(f)+", (.var "+leanStr(c.path(vid)+"."+f)+"))")
+					}
+					return "(.appendRec " + leanStr(arr) + " [" + strings.Join(fs, ", ") + "])"
+				}
 				return "(.append " + leanStr(arr) + " " + c.expr(call.Args[1]) + ")"
 			}
 			if isFuncValue(call.Fun) {
@@ -973,7 +996,14 @@ func (c *mgCtx) stmt(s ast.Stmt) string {
 			return c.unsupportedS(s)
 		}
 		if id, ok := x.Value.(*ast.Ident); ok && id.Name != "_" {
-			body = append(body, "(.assign "+leanStr(c.path(id))+" (.index "+leanStr(arr)+" (.var "+leanStr(iv)+") \"\"))")
+			if fs := fieldsUsed(x.Body, id.Name); len(fs) > 0 {
+				// the element is a struct: a copy, field by field (those the body reads)
+				for _, f := range fs {
+					body = append(body, "(.assign "+leanStr(id.Name+"."+f)+" (.index "+leanStr(arr)+" (.var "+leanStr(iv)+") "+leanStr(f)+"))")
+				}
+			} else {
+				body = append(body, "(.assign "+leanStr(c.path(id))+" (.index "+leanStr(arr)+" (.var "+leanStr(iv)+") \"\"))")
+			}
 		} else if x.Value != nil && !ok {
 			return c.unsupportedS(s)
 		}
@@ -1122,6 +1152,33 @@ func hasBranch(n ast.Node) bool {
 	return found
 }
 
+// struct types declared in a file: name → field names
+func structTypes(af *ast.File, out map[string][]string) {
+	for _, d := range af.Decls {
+		gd, ok := d.(*ast.GenDecl)
+		if !ok || gd.Tok != token.TYPE {
+			continue
+		}
+		for _, sp := range gd.Specs {
+			ts, ok := sp.(*ast.TypeSpec)
+			if !ok {
+				continue
+			}
+			st, ok := ts.Type.(*ast.StructType)
+			if !ok {
+				continue
+			}
+			var fs []string
+			for _, f := range st.Fields.List {
+				for _, nm := range f.Names {
+					fs = append(fs, nm.Name)
+				}
+			}
+			out[ts.Name.Name] = fs
+		}
+	}
+}
+
 // struct fields of the package declared with a sync/atomic type
 func atomicFields(af *ast.File) map[string]bool {
 	out := map[string]bool{}
@@ -1180,6 +1237,7 @@ func translateMiniGo(repo string) string {
 	cache := map[string]*ast.File{}
 	fsets := map[string]*token.FileSet{}
 	atomCache := map[string]map[string]bool{}
+	structCache := map[string]map[string][]string{}
 	for _, w := range mgWants {
 		af := cache[w.file]
 		if af == nil {
@@ -1206,6 +1264,16 @@ func translateMiniGo(repo string) string {
 				}
 			}
 			atomCache[w.file] = at
+			sts := map[string][]string{}
+			for _, m := range matches {
+				if strings.HasSuffix(m, "_test.go") {
+					continue
+				}
+				if g, err := parser.ParseFile(token.NewFileSet(), m, nil, 0); err == nil {
+					structTypes(g, sts)
+				}
+			}
+			structCache[w.file] = sts
 		}
 		var fd *ast.FuncDecl
 		for _, d := range af.Decls {
@@ -1219,7 +1287,8 @@ func translateMiniGo(repo string) string {
 		}
 		loopN := 0
 		c := &mgCtx{fset: fsets[w.file], atomics: atomCache[w.file], rename: map[string]string{}, alias: map[string]string{},
-			opaque: map[string]bool{}, loopN: &loopN, body: fd, pkgDir: filepath.Dir(w.file), pkgDecls: af.Decls}
+			opaque: map[string]bool{}, loopN: &loopN, body: fd, pkgDir: filepath.Dir(w.file), pkgDecls: af.Decls,
+			structs: structCache[w.file], structVars: map[string][]string{}}
 		structLocals = map[string]bool{}
 		// locals that receive the results of a call with several results
 		ast.Inspect(fd.Body, func(nd ast.Node) bool {
@@ -1241,6 +1310,9 @@ func translateMiniGo(repo string) string {
 		for _, p := range fd.Type.Params.List {
 			for _, nm := range p.Names {
 				c.rename[nm.Name] = "arg" + strconv.Itoa(n)
+				if id, ok := p.Type.(*ast.Ident); ok && c.structs[id.Name] != nil {
+					c.structVars[nm.Name] = c.structs[id.Name] // a struct passed by value: its fields are variables `argN.F`
+				}
 				n++
 			}
 		}
@@ -1314,7 +1386,7 @@ func translateMiniGo(repo string) string {
 			if depth == len(steps)-1 {
 				fmt.Fprintf(&out, "def %s_init : Stmt :=\n  %s\n\n", w.lean, cc.block(init))
 			}
-			c2 := &mgCtx{fset: c.fset, atomics: c.atomics, rename: map[string]string{}, alias: c.alias, opaque: c.opaque, loopN: c.loopN, body: c.body, pkgDir: c.pkgDir, pkgDecls: c.pkgDecls}
+			c2 := &mgCtx{fset: c.fset, atomics: c.atomics, rename: map[string]string{}, alias: c.alias, opaque: c.opaque, loopN: c.loopN, body: c.body, pkgDir: c.pkgDir, pkgDecls: c.pkgDecls, structs: c.structs, structVars: c.structVars}
 			for k, v := range cc.rename {
 				c2.rename[k] = v
 			}
